@@ -67,7 +67,7 @@ struct Obj {
 	bool lvl_unknown = false; int oldprio = 0;
 	bool salt = false;                   // signal handler: which of the two callback entry points is the registered one            // the descriptor joins its level's queue at the next poll: everything queued until then is ahead of it
 	// signal handler
-	qb_loop_signal_handle sh = NULL; bool sreg = false; int sprio = 0; int signo = 0; int must = 0, may = 0; int64_t s_since = -1; int64_t sdl = -1;
+	qb_loop_signal_handle sh = NULL; bool sreg = false; int sprio = 0; int signo = 0; int must = 0, may = 0; int64_t s_since = -1; int64_t sdl = -1; bool lvl_unknown_s = false; int oldsprio = 0;
 };
 
 struct St {
@@ -109,7 +109,7 @@ static St *Lp;
 
 static int p_del_queued_timer, p_del_queued_fd, p_del_queued_job, p_del_queued_sig, p_self_del, p_readd_in_cb, p_stale_handle,
 	p_slot_reuse_stale, p_fd_reuse, p_two_sig_then_del, p_retneg, p_retneg_open, p_close_retneg, p_number_reused_in_cb, p_default_loop, p_sig_mod, p_fd_mod_data, p_stop, p_throttle50, p_ms31, p_ms32, p_overflow, p_equal_expiry,
-	p_timer_fired, p_nohandle, p_dup_add, p_adders, p_nested, p_job_del_foreign, p_long_run, p_eintr_epoll, p_eintr_retry, p_async_sig, p_hup, p_busy;
+	p_timer_fired, p_nohandle, p_sig_mod_pending, p_dup_add, p_adders, p_nested, p_job_del_foreign, p_long_run, p_eintr_epoll, p_eintr_retry, p_async_sig, p_hup, p_busy;
 
 static void init(const char *prop)
 {
@@ -141,6 +141,7 @@ static void init(const char *prop)
 	p_long_run = counter_id("probe", "run_longer_than_1000_iterations");
 	p_eintr_epoll = counter_id("probe", "epoll_wait_eintr");
 	p_nohandle = counter_id("probe", "timer_added_without_asking_for_a_handle");
+	p_sig_mod_pending = counter_id("probe", "signal_handler_moved_to_another_level_with_deliveries_on_their_way");
 	p_dup_add = counter_id("probe", "second_add_of_a_watched_descriptor");
 	p_adders = counter_id("probe", "timers_added_by_several_threads_at_once");
 	p_nested = counter_id("probe", "second_loop_instance_run_from_a_callback");
@@ -169,7 +170,7 @@ static int level_regs(int p)
 		Obj &o = L.objs[i];
 		if (o.type == O_TIMER && o.tpend && o.tprio == p) n++;
 		if (o.type == O_FD && o.reg && (o.fprio == p || (o.lvl_unknown && o.oldprio == p))) n++;
-		if (o.type == O_SIG && o.sreg && o.sprio == p) n += o.must + o.may + 1;
+		if (o.type == O_SIG && o.sreg && (o.sprio == p || (o.lvl_unknown_s && o.oldsprio == p))) n += o.must + o.may + 1;
 	}
 	if (p == QB_LOOP_HIGH) n++;      // the signal pipe
 	return n;
@@ -372,6 +373,7 @@ static int32_t sig_cb_common(int32_t sig, void *data, bool alt)
 		VIOL(8, "signal-callback-wrong-function", "qb_loop_signal_mod", "handler %d was called through the function registered before qb_loop_signal_mod() replaced it", o.id);
 	ev(303, o.id, sig);
 	note_callback(o.sprio);
+	if (o.lvl_unknown_s && o.oldsprio != o.sprio) L.disp_iter[o.oldsprio]++;
 	if (L.in_async) VIOL(8, "signal-callback-in-handler", "qb_loop_signal_add", "signal callback %d invoked from the asynchronous handler", o.id);
 	if (!o.sreg || rg->gen != o.gen) {
 		VIOL(8, "signal-callback-after-delete", "qb_loop_signal_del", "signal handler object %d invoked although it was deleted (qb_loop_signal_del returned 0)", o.id);
@@ -382,6 +384,7 @@ static int32_t sig_cb_common(int32_t sig, void *data, bool alt)
 	else if (o.may > 0) o.may--;
 	else VIOL(8, "signal-callback-without-delivery", "qb_loop_signal_add", "signal handler %d invoked more often than signal %d was delivered", o.id, sig);
 	if (o.must == 0) { o.s_since = -1; o.sdl = -1; }
+	if (o.must == 0 && o.may == 0) o.lvl_unknown_s = false;
 	o.invoked++;
 	fire_triggers(o);
 	return 0;
@@ -633,7 +636,7 @@ static void do_op(size_t oi, int from_obj)
 		int r = qb_loop_signal_add(LP, (enum qb_loop_priority)prio, SIGS[si], new_cookie(o), sig_cb, &h);
 		L.in_sigop = false;
 		if (r != 0) { VIOL(8, "signal-add-failed", "qb_loop_signal_add", "qb_loop_signal_add returned %d", r); break; }
-		o.sh = h; o.sreg = true; o.sprio = prio; o.signo = SIGS[si]; o.salt = false; o.must = 0; o.s_since = -1; o.sdl = -1;
+		o.sh = h; o.sreg = true; o.lvl_unknown_s = false; o.sprio = prio; o.signo = SIGS[si]; o.salt = false; o.must = 0; o.s_since = -1; o.sdl = -1;
 		// a delivery that is still on its way through the pipe may or may not reach a handler added now
 		o.may = 0;
 		for (size_t k = 0; k < L.sig_inflight.size(); k++) if (L.sig_inflight[k] == si) o.may++;
@@ -652,13 +655,22 @@ static void do_op(size_t oi, int from_obj)
 	case K_SIG_MOD: {
 		// change level and / or signal number of a handler that has no delivery on its way (a queued delivery keeps
 		// the level and number it was queued with; keeping those cases out keeps the model simple)
-		if (o.type != O_SIG || !o.sreg || o.must || o.may || L.stopped) break;
+		if (o.type != O_SIG || !o.sreg || L.stopped) break;
 		int si = (int)(((op.a[4] % 4) + 4) % 4);
+		bool pending = o.must || o.may;
+		if (pending) {
+			// deliveries on their way: only the level (and the function) change; what is queued stays where it is and is
+			// dispatched from there, what is still in the pipe goes to the new level - and a later delete removes them all
+			for (int k = 0; k < 4; k++) if (SIGS[k] == o.signo) si = k;
+			if (!o.lvl_unknown_s) { o.lvl_unknown_s = true; o.oldsprio = o.sprio; }
+			if (o.sdl >= 0) { int64_t d = deadline(prio) + (int64_t)L.sig_inflight.size() + 3; if (d > o.sdl) o.sdl = d; }
+			count(p_sig_mod_pending);
+		}
 		bool busy = false;
-		for (size_t k = 0; k < L.sig_inflight.size(); k++) if (SIGS[L.sig_inflight[k]] == o.signo || L.sig_inflight[k] == si) busy = true;
+		for (size_t k = 0; k < L.sig_inflight.size() && !pending; k++) if (SIGS[L.sig_inflight[k]] == o.signo || L.sig_inflight[k] == si) busy = true;
 		if (busy) break;
 		L.in_sigop = true;
-		bool alt = !o.salt;
+		bool alt = pending ? o.salt : !o.salt;      // (a queued delivery is a copy and carries the function of its time)
 		int r = qb_loop_signal_mod(LP, (enum qb_loop_priority)prio, SIGS[si], o.cookie, alt ? sig_cb_alt : sig_cb, o.sh);
 		L.in_sigop = false;
 		if (r != 0) { VIOL(8, "signal-mod-failed", "qb_loop_signal_mod", "qb_loop_signal_mod returned %d", r); break; }
